@@ -102,6 +102,23 @@ func baseError(L *LState) int {
 	return 0
 }
 
+// fenvFunction returns the function running at stack level level (1 is the
+// caller of getfenv/setfenv), counting the levels lost to tail calls as
+// lua_getstack does (lbaselib.c getfunc).
+func fenvFunction(L *LState, level int) *LFunction {
+	if level < 0 {
+		L.ArgError(1, "level must be non-negative")
+	}
+	dbg, ok := L.GetStack(level)
+	if !ok {
+		L.ArgError(1, "invalid level")
+	}
+	if dbg.frame == tailCallFrame {
+		L.RaiseError("no function environment for tail call at level %d", level)
+	}
+	return dbg.frame.Fn
+}
+
 func baseGetFEnv(L *LState) int {
 	var value LValue
 	if L.GetTop() == 0 {
@@ -121,18 +138,12 @@ func baseGetFEnv(L *LState) int {
 
 	if number, ok := value.(LNumber); ok {
 		level := int(float64(number))
-		if level <= 0 {
+		if level == 0 {
 			L.Push(L.Env)
+		} else if fn := fenvFunction(L, level); fn.IsG {
+			L.Push(L.G.Global)
 		} else {
-			cf := L.currentFrame
-			for i := 0; i < level && cf != nil; i++ {
-				cf = cf.Parent
-			}
-			if cf == nil || cf.Fn.IsG {
-				L.Push(L.G.Global)
-			} else {
-				L.Push(cf.Fn.Env)
-			}
+			L.Push(fn.Env)
 		}
 		return 1
 	}
@@ -373,20 +384,15 @@ func baseSetFEnv(L *LState) int {
 
 	if number, ok := value.(LNumber); ok {
 		level := int(float64(number))
-		if level <= 0 {
+		if level == 0 {
 			L.Env = env
 			return 0
 		}
-
-		cf := L.currentFrame
-		for i := 0; i < level && cf != nil; i++ {
-			cf = cf.Parent
-		}
-		if cf == nil || cf.Fn.IsG {
+		if fn := fenvFunction(L, level); fn.IsG {
 			L.RaiseError("cannot change the environment of given object")
 		} else {
-			cf.Fn.Env = env
-			L.Push(cf.Fn)
+			fn.Env = env
+			L.Push(fn)
 			return 1
 		}
 	}
